@@ -1,10 +1,10 @@
-\* thorough, exhaustive: 3 connections x 2 callers x 2 hooks, standard transport
+\* thorough, exhaustive: 2 connections x 2 requests x 2 callers x hooks {any speed, beyond the deadline}, standard transport
 CONSTANTS
-  Conns = {c1, c2, c3}
+  Conns = {c1, c2}
   Callers = {k1, k2}
   Hooks = {h1, h2}
   BeyondHooks = {h2}
-  MaxReq = 1
+  MaxReq = 2
   Transport = "standard"
   ServerRun = TRUE
   CasLoserErrors = TRUE
